@@ -1097,7 +1097,15 @@ func (e *Ev) evHeapGhost(name string, x *ast.CallExpr) (Val, bool) {
 			}
 			// objects that existed at entry only: what the call allocated is not "another object changed"
 			ne = append(ne, sLe(p, e.fx.allocTerm(e.oldEv.st)))
-			cs = append(cs, fmt.Sprintf("(forall ((%s Int)) (=> %s (= (select %s %s) (select %s %s))))", p, sAnd(ne...), cur, p, old, p))
+			pat := ""
+			if isAtom(cur) {
+				pat = fmt.Sprintf(" :pattern ((select %s %s))", cur, p)
+			}
+			if pat != "" {
+				cs = append(cs, fmt.Sprintf("(forall ((%s Int)) (! (=> %s (= (select %s %s) (select %s %s)))%s))", p, sAnd(ne...), cur, p, old, p, pat))
+			} else {
+				cs = append(cs, fmt.Sprintf("(forall ((%s Int)) (=> %s (= (select %s %s) (select %s %s))))", p, sAnd(ne...), cur, p, old, p))
+			}
 		}
 		return VBool{sAnd(cs...)}, true
 	case "onlyfresh":
